@@ -87,8 +87,20 @@ class Sched(object):
         self.record = True
         self.events = 0
         self.reverse = False    # reversed canonical order (a second, very different global order)
+        self.objbit = None      # per-object orders: the i-th distinct set object seen in one library call iterates in
+        self.objflip = 0        # canonical order if bit `objbit` of i equals objflip, else in reversed order
+        self.objs = {}
+        self.keep = []
 
-    def reset(self, boost=(), budget=10 ** 9, native=False, record=True, reverse=False):
+    def newcall(self):
+        self.objs = {}
+        self.keep = []
+
+    def reset(self, boost=(), budget=10 ** 9, native=False, record=True, reverse=False, objbit=None, objflip=0):
+        self.objbit = objbit
+        self.objflip = objflip
+        self.objs = {}
+        self.keep = []
         self.native = native
         self.boost = tuple(boost)
         self.boostidx = {b: i for i, b in enumerate(self.boost)}
@@ -135,7 +147,14 @@ def key(e):
 
 
 def ordered(x, site):
-    ks = sorted(((key(e), e) for e in x), key=lambda p: p[0], reverse=S.reverse)
+    rev = S.reverse
+    if S.objbit is not None:
+        n = S.objs.get(id(x))
+        if n is None:
+            n = S.objs[id(x)] = len(S.keep)
+            S.keep.append(x)      # strong reference: no id reuse within one call
+        rev = bool(((n >> S.objbit) & 1) ^ S.objflip)
+    ks = sorted(((key(e), e) for e in x), key=lambda p: p[0], reverse=rev)
     if S.boostidx:
         n = len(S.boost)
         bi = S.boostidx
